@@ -9,9 +9,12 @@ import (
 	"verif/harness/hmain"
 	"verif/harness/hx"
 	"verif/harness/pipedrv"
+	"verif/harness/pooldrv"
 )
 
 func gen(c *hmain.Ctx) {
+	// the event pools alone (sub-models 10 / 11): capacity, slot uniqueness, no double back
+	pooldrv.Gen(c)
 	pipedrv.GenFamilies(c, 0, []pipedrv.Fam{
 		{Stream: "basic", Opts: pipedrv.FamBasic, N: 60},
 		{Stream: "hold", Opts: pipedrv.FamHold, N: 60},
@@ -26,5 +29,10 @@ func gen(c *hmain.Ctx) {
 func main() {
 	hmain.Run(&hmain.Prop{ID: "C05",
 		Rule: "pipeline cases (see C02) with small pool capacities (2..24), decode errors, PassEvent refusals, discard / hold / collapse / split, retries and dead queue; observable = label trace incl. finalize(notify, back) and the pool state at quiescence. Every case non-trivial; distinct = distinct case text.",
-		Gen: gen, Exec: func(which int, cs hx.Sx) hx.Sx { return pipedrv.RunCase(cs) }})
+		Gen:  gen, Exec: func(which int, cs hx.Sx) hx.Sx {
+			if which == 10 || which == 11 {
+				return pooldrv.RunCase(cs)
+			}
+			return pipedrv.RunCase(cs)
+		}})
 }
